@@ -1310,12 +1310,18 @@ def refcount_protocol_cxx(ctx, crate, cx):
             continue
         who = [p_.get("name") for p_ in _kids(m) if p_.get("kind") == "ParmVarDecl"][0]
         body = [x for x in _kids(m) if x.get("kind") == "CompoundStmt"][0]
-        sts = _kids(body)
-        take = [k for k, st in enumerate(sts) if st.get("kind") == "BinaryOperator" and st.get("opcode") == "=" and len(_kids(st)) == 2 and
-                _is_inner_of(_kids(st)[0], None)]
-        rel = [k for k, st in enumerate(sts) if cxx.walk(st, lambda y: y.get("kind") in ("MemberExpr", "UnresolvedMemberExpr") and (y.get("member") or y.get("name")) == "drop")]
-        swaps = any(cxx.walk(st, lambda y: ((y.get("referencedDecl") or {}).get("name") or y.get("name")) == "swap") for st in sts)
-        ok = swaps or (bool(take) and bool(rel) and min(rel) < min(take))
+        ok = False
+        # in the block that overwrites `inner` (the body, or the branch of a `if (other.inner != inner)` guard) drop() comes first
+        for blk in [body] + cxx.walk(body, lambda y: y.get("kind") == "CompoundStmt"):
+            sts = _kids(blk)
+            take = [k for k, st in enumerate(sts) if st.get("kind") == "BinaryOperator" and st.get("opcode") == "=" and len(_kids(st)) == 2 and
+                    _is_inner_of(_kids(st)[0], None)]
+            rel = [k for k, st in enumerate(sts) if st.get("kind") not in ("IfStmt", "CompoundStmt") and
+                   cxx.walk(st, lambda y: y.get("kind") in ("MemberExpr", "UnresolvedMemberExpr") and (y.get("member") or y.get("name")) == "drop")]
+            if take and rel and min(rel) < min(take):
+                ok = True
+        swaps = bool(cxx.walk(body, lambda y: ((y.get("referencedDecl") or {}).get("name") or y.get("name")) == "swap"))
+        ok = ok or swaps
         ctx.ob(R, "resolvo::Vector::operator=", "copy-assignment-releases-the-old-buffer", ok, H,
                "drop() runs before `inner` is overwritten with `%s.inner` (or the copy-and-swap idiom is used)" % who)
     # --- move assignment
